@@ -207,7 +207,7 @@ def strip_generics(c):
                     if d == 0: break
                 j += 1
             # `path::<impl T>::method` is an inherent-impl path segment (kept); `f::<impl Trait>` at the end is a generic argument (stripped)
-            if c.startswith('::<impl ', i) and c.startswith('::', j + 1): out.append(c[i:j+1])
+            if c.startswith('::<impl ', i) and c.startswith('::', j + 1) and re.match(r'::<impl (at |\[|[a-z])', c[i:i+12]): out.append(c[i:j+1])
             i = j + 1
         else: out.append(c[i]); i += 1
     return ''.join(out)
@@ -518,7 +518,7 @@ class Engine:
         if t.startswith('move '): c, p = s.place(fr, t[5:]); return s.read(c, p)
         if t.startswith('no_retag '): return s.operand(fr, t[9:])
         if t.startswith('const '): return s.const(t[6:])
-        if re.fullmatch(r'[\w:<>, ]+', t): return FnItem(t)
+        if re.fullmatch(r"[\w:<>, ()&'\[\];]+", t) and not t.startswith('('): return FnItem(t)
         raise Missing('operand ' + t)
 
     def mk_f64(s, txt):
@@ -792,6 +792,11 @@ class Engine:
             return selfty is not None and bare(selfty) in tys
         sm = [f for f in cands if selfmatch(f)]
         if len(sm) == 1: return sm[0]
+        if not sm and selfty is not None and not mm:
+            # inherent method of a generic type (`iter::RcVecIter::of`): compare type heads without generic arguments
+            def head(t): return re.sub(r'<.*', '', bare(t))
+            hm = [f for f in cands if head(selfty) in ([head(norm(f.params[0][1]))] if f.params else []) + [head(norm(f.ret))]]
+            if len(hm) == 1: return hm[0]
         mt = re.match(r'^<.*? as \w+<(.*)>>::\w+$', callee)
         if mt and len(sm or cands) > 1:
             targs = [norm(x) for x in split_top(mt.group(1))]
